@@ -76,6 +76,25 @@ theorem sound_zero (regs : Regs) (lim : Nat) : Sound regs lim 0 := by
 theorem AST.height_pos : ∀ e : AST, 1 ≤ e.height := by
   intro e; cases e <;> simp [AST.height]
 
+theorem headOp_spec (toks : List Tok) (neg : Bool) (opName : Name) (afterOp : List Tok)
+    (h : headOp toks = some (neg, opName, afterOp)) :
+    toks = (if neg then [tNot, .op opName] else [.op opName]) ++ afterOp := by
+  unfold headOp at h
+  split at h
+  · rename_i o rst
+    split at h
+    · rename_i hnot
+      split at h
+      · simp only [Option.some.injEq, Prod.mk.injEq] at h
+        obtain ⟨rfl, rfl, rfl⟩ := h
+        have : o = notName := by simpa using hnot
+        simp [tNot, this]
+      · cases h
+    · simp only [Option.some.injEq, Prod.mk.injEq] at h
+      obtain ⟨rfl, rfl, rfl⟩ := h
+      simp
+  · cases h
+
 section Step
 variable {regs : Regs} {lim fuel : Nat} (hl : 1 ≤ lim) (hp : RegsPos regs) (ih : Sound regs lim fuel)
 include hl hp ih
@@ -247,6 +266,180 @@ theorem step_items (d : Nat) (toks : List Tok) (es : List AST) (h : Nat) (rest :
     · have hr := expectTok_ok hsep
       exact ⟨c ++ .comma :: c2, by simp [hc, hr, hc2], GItems.cons hg hg2, by simp [AST.heightList, hh1, hh3], by omega⟩
 
+theorem step_entries (d : Nat) (toks : List Tok) (es : List (AST × AST)) (h : Nat) (rest : List Tok)
+    (hh : parseMapItems regs lim (fuel + 1) d toks = .ok (es, h, rest)) :
+    ∃ c, toks = c ++ rest ∧ GEntries regs c es ∧ h = AST.heightMap es ∧ h ≤ lim := by
+  unfold parseMapItems at hh
+  split at hh
+  · cases hh; exact ⟨[], rfl, GEntries.nil, rfl, by omega⟩
+  · cases hh; exact ⟨[], rfl, GEntries.nil, rfl, by omega⟩
+  · obtain ⟨⟨k, hk, r⟩, hkexp, h2⟩ := Res.bind_eq_ok hh
+    try dsimp only at h2
+    obtain ⟨ck, hck, hgk, hhk1, hhk2⟩ := ih.expr d toks k hk r hkexp
+    obtain ⟨r1, hcolon, h3⟩ := Res.bind_eq_ok h2
+    try dsimp only at h3
+    have hr1 := expectTok_ok hcolon
+    obtain ⟨⟨v, hv, r2⟩, hvexp, h4⟩ := Res.bind_eq_ok h3
+    try dsimp only at h4
+    obtain ⟨cv, hcv, hgv, hhv1, hhv2⟩ := ih.expr d r1 v hv r2 hvexp
+    obtain ⟨r3, hsep, h5⟩ := Res.bind_eq_ok h4
+    try dsimp only at h5
+    obtain ⟨⟨kvs, hkvs, r4⟩, hrec, h6⟩ := Res.bind_eq_ok h5
+    try dsimp only at h6
+    cases h6
+    obtain ⟨c2, hc2, hg2, hh3, hh4⟩ := ih.entries d r3 kvs hkvs _ hrec
+    split at hsep
+    · rename_i r5
+      cases hsep
+      have : kvs = [] ∧ c2 = [] := by
+        cases fuel with
+        | zero => unfold parseMapItems at hrec; cases hrec
+        | succ f =>
+          unfold parseMapItems at hrec
+          simp at hrec
+          obtain ⟨rfl, _, rfl⟩ := hrec
+          cases hg2 with
+          | nil => exact ⟨rfl, rfl⟩
+      obtain ⟨rfl, rfl⟩ := this
+      refine ⟨ck ++ tColon :: cv, by simp at hc2; simp [hck, hr1, hcv, hc2, tColon], GEntries.one hgk hgv, ?_, by omega⟩
+      simp [AST.heightMap, hhk1, hhv1] at hh3 ⊢
+      omega
+    · have hr := expectTok_ok hsep
+      refine ⟨ck ++ tColon :: (cv ++ .comma :: c2), by simp [hck, hr1, hcv, hr, hc2, tColon], GEntries.cons hgk hgv hg2, ?_, by omega⟩
+      simp [AST.heightMap, hhk1, hhv1, hh3]
+
+theorem step_op (d : Nat) (p : Int) (lhs : AST) (lhsH : Nat) (toks : List Tok) (e : AST) (h : Nat) (rest : List Tok)
+    (hh : parseOp regs lim (fuel + 1) d p lhs lhsH toks = .ok (e, h, rest))
+    (hp0 : 0 ≤ p) (lts : List Tok) (hlts : GBin regs lts lhs) (hlh : lhsH = lhs.height) (hll : lhsH ≤ lim) :
+    ∃ c, toks = c ++ rest ∧ GExpr regs (lts ++ c) e ∧ (0 < p → GBin regs (lts ++ c) e) ∧ h = e.height ∧ h ≤ lim := by
+  have stop : ∀ (t : List Tok), (e, h, rest) = (lhs, lhsH, t) → toks = t →
+      ∃ c, toks = c ++ rest ∧ GExpr regs (lts ++ c) e ∧ (0 < p → GBin regs (lts ++ c) e) ∧ h = e.height ∧ h ≤ lim := by
+    intro t he ht
+    cases he
+    exact ⟨[], by simp [ht], by simpa using GExpr.bin hlts, fun _ => by simpa using hlts, hlh, hll⟩
+  unfold parseOp at hh
+  split at hh
+  · rename_i o rst
+    split at hh
+    · -- `?`
+      rename_i hq
+      split at hh
+      · exact stop _ (by cases hh; rfl) rfl
+      · rename_i hpz
+        obtain ⟨⟨a, aH, r1⟩, hae, h2⟩ := Res.bind_eq_ok hh
+        try dsimp only at h2
+        obtain ⟨r2, hcol, h3⟩ := Res.bind_eq_ok h2
+        try dsimp only at h3
+        obtain ⟨⟨b, bH, r3⟩, hbe, h4⟩ := Res.bind_eq_ok h3
+        try dsimp only at h4
+        obtain ⟨h', hn, h5⟩ := Res.bind_eq_ok h4
+        cases h5
+        have hr := expectTok_ok hcol
+        obtain ⟨ca, hca, hga, hha1, _⟩ := ih.expr d rst a aH r1 hae
+        obtain ⟨cb, hcb, hgb, hhb1, _⟩ := ih.expr d r2 b bH _ hbe
+        obtain ⟨hn1, hn2⟩ := node_ok hn
+        refine ⟨.op o :: (ca ++ tColon :: cb), by simp [hca, hr, hcb, tColon], ?_, fun hpos => absurd hpos (by omega), ?_, by omega⟩
+        · have := GExpr.tern hlts hga hgb
+          simpa [tQ, hq] using this
+        · simp [AST.height, hn1, hlh, hha1, hhb1]
+    · -- infix operator (possibly behind `not`)
+      rename_i hnq
+      split at hh
+      · cases hh
+      · rename_i neg opName afterOp hhead
+        have hsplit := headOp_spec _ neg opName afterOp hhead
+        split at hh
+        · cases hh
+        · rename_i hnb
+          split at hh
+          · exact stop _ (by cases hh; rfl) rfl
+          · rename_i hlp
+            -- the accepted operator is infix
+            have hinf : regs.isInfix opName = true := by
+              cases hb' : regs.isInfix opName with
+              | true => rfl
+              | false =>
+                have := bp_of_noninfix regs opName hb'
+                omega
+            obtain ⟨hr1, hl0⟩ := bp_of_infix regs hp opName hinf
+            obtain ⟨⟨rhs, rhsH, r1⟩, hprim, h2⟩ := Res.bind_eq_ok hh
+            try dsimp only at h2
+            obtain ⟨cr, hcr, hgr, hhr1, hhr2⟩ := ih.prim d afterOp rhs rhsH r1 hprim
+            obtain ⟨⟨rhs', rhsH', r2⟩, hcont, h3⟩ := Res.bind_eq_ok h2
+            try dsimp only at h3
+            have hcontS : ∃ c2, r1 = c2 ++ r2 ∧ GBin regs (cr ++ c2) rhs' ∧ rhsH' = rhs'.height ∧ rhsH' ≤ lim := by
+              split at hcont
+              · split at hcont
+                · cases hcont
+                · obtain ⟨c2, hc2, _, hgb, hh1, hh2⟩ := ih.op (d + 1) _ rhs rhsH r1 rhs' rhsH' r2 hcont (by omega) cr (GBin.prim hgr) hhr1 hhr2
+                  exact ⟨c2, hc2, hgb (by omega), hh1, hh2⟩
+              · cases hcont
+                exact ⟨[], by simp, by simpa using GBin.prim hgr, hhr1, hhr2⟩
+            obtain ⟨c2, hc2, hgrhs, hhr'1, hhr'2⟩ := hcontS
+            obtain ⟨hb1, hn1, h4⟩ := Res.bind_eq_ok h3
+            obtain ⟨hb2, hn2, h5⟩ := Res.bind_eq_ok h4
+            obtain ⟨hn1a, hn1b⟩ := node_ok hn1
+            have hnew : GBin regs (lts ++ ((if neg then [tNot, .op opName] else [.op opName]) ++ (cr ++ c2)))
+                  (wrapNot neg (.binary opName lhs rhs')) ∧
+                hb2 = (wrapNot neg (.binary opName lhs rhs')).height ∧ hb2 ≤ lim := by
+              cases neg with
+              | true =>
+                simp only [if_true] at hn2 ⊢
+                obtain ⟨hn2a, hn2b⟩ := node_ok hn2
+                refine ⟨?_, by simp [wrapNot, AST.height, hn2a, hn1a, hlh, hhr'1], by omega⟩
+                have := GBin.notBin hlts hinf hgrhs
+                simpa [wrapNot, tNot] using this
+              | false =>
+                simp only [Bool.false_eq_true, if_false] at hn2 ⊢
+                cases hn2
+                refine ⟨?_, by simp [wrapNot, AST.height, hn1a, hlh, hhr'1], by omega⟩
+                have := GBin.bin hlts hinf hgrhs
+                simpa [wrapNot] using this
+            obtain ⟨hgnew, hhnew1, hhnew2⟩ := hnew
+            obtain ⟨c3, hc3, hge, hgb, hhe1, hhe2⟩ := ih.op d p _ hb2 r2 e h rest h5 hp0 _ hgnew hhnew1 hhnew2
+            refine ⟨(if neg then [tNot, .op opName] else [.op opName]) ++ (cr ++ c2) ++ c3, ?_,
+              by simpa [List.append_assoc] using hge, fun hpos => by simpa [List.append_assoc] using hgb hpos, hhe1, hhe2⟩
+            rw [hsplit, hcr, hc2, hc3]; simp
+  · exact stop _ (by cases hh; rfl) rfl
+
 end Step
+
+/-- The master soundness invariant holds for every amount of fuel. -/
+theorem sound (regs : Regs) (lim : Nat) (hl : 1 ≤ lim) (hp : RegsPos regs) : ∀ fuel, Sound regs lim fuel
+  | 0 => sound_zero regs lim
+  | fuel + 1 =>
+    have ih := sound regs lim hl hp fuel
+    { tok := step_tok hl hp ih
+      prim := step_prim hl hp ih
+      expr := step_expr hl hp ih
+      op := step_op hl hp ih
+      args := step_args hl hp ih
+      items := step_items hl hp ih
+      entries := step_entries hl hp ih }
+
+/-- The statement loop. -/
+theorem parseStmts_sound (regs : Regs) (lim : Nat) (hl : 1 ≤ lim) (hp : RegsPos regs) :
+    ∀ (fuel : Nat) (toks : List Tok) (es : List AST) (h : Nat), parseStmts regs lim fuel toks = .ok (es, h) →
+      GProg regs toks es ∧ h = AST.heightList es ∧ h ≤ lim
+  | 0, _, _, _, hh => by simp [parseStmts] at hh
+  | fuel + 1, [], es, h, hh => by
+    simp [parseStmts] at hh
+    obtain ⟨rfl, rfl⟩ := hh
+    exact ⟨GProg.nil, rfl, by omega⟩
+  | fuel + 1, t :: ts, es, h, hh => by
+    simp only [parseStmts] at hh
+    obtain ⟨⟨a, ha, r⟩, hexp, h2⟩ := Res.bind_eq_ok hh
+    try dsimp only at h2
+    obtain ⟨c, hc, hg, hh1, hh2⟩ := (sound regs lim hl hp fuel).expr 0 (t :: ts) a ha r hexp
+    obtain ⟨⟨as, ha'⟩, hrec, h3⟩ := Res.bind_eq_ok h2
+    try dsimp only at h3
+    cases h3
+    obtain ⟨hg2, hh3, hh4⟩ := parseStmts_sound regs lim hl hp fuel _ as ha' hrec
+    refine ⟨?_, by simp [AST.heightList, hh1, hh3], by omega⟩
+    rw [hc]
+    split at hg2
+    · rename_i r'
+      exact GProg.stmtSemi hg hg2
+    · exact GProg.stmt hg hg2
 
 end EE
